@@ -392,11 +392,11 @@ def run(ctx):
     arr.sort(key=lambda c: c['H'] * c['W'])
     ctx.pmap(case_split_array, arr, chunk=1)
     cases = []
-    for n in (NCHANS if thorough else [n for n in NCHANS if n <= 20]):
+    for n in (NCHANS if thorough else [n for n in NCHANS if n <= 16]):
         for k, a in enumerate(FOFF):
             for sgn in (-1, 1):
                 for j, fch1 in enumerate(FCH1):
-                    full = thorough or (n <= 16 and ((k == 0 and j == 0) or (k == 1 and j == 2)))
+                    full = thorough or (n <= 12 and ((k == 0 and j == 0) or (k == 1 and j == 2)))
                     cases.append(dict(nchans=n, foff=sgn * a, fch1=fch1, seed=ctx.seed,
                                       tchans_modes=[None, 1, 3, 4] if full else [None],
                                       consumers=full,
@@ -409,12 +409,12 @@ def run(ctx):
              'modes {default,1,3,4->ValueError} and the consumers (split_fil, distributions) on %s; split_array: all '
              'shapes <= 6x6, tile sizes None/1..dim+1, shifts None/1..tile, 4 trim combinations, invalid shifts.  '
              'Non-trivial = more than one piece/tile expected or a proper sub-band; distinct = distinct parameter '
-             'tuples' % (24 if thorough else 20, 'the whole box, consumer shifts {default,1,2,3}' if thorough else
-                'the sub-box nchans<=16 x {(foff=+-1 MHz, fch1=100 MHz), (foff=+-BL hi-res, fch1=6000 MHz)}, consumer '
+             'tuples' % (24 if thorough else 16, 'the whole box, consumer shifts {default,1,2,3}' if thorough else
+                'the sub-box nchans<=12 x {(foff=+-1 MHz, fch1=100 MHz), (foff=+-BL hi-res, fch1=6000 MHz)}, consumer '
                 'shifts {default,2}'),
         assumptions=['fch1/foff <= 2^36', 'piece frequencies compared within %d ulp against the exact header rationals'
                      % K_F, 'for shifts smaller than the tile the expected windows are [k*shift, min(k*shift+tile, '
                      'size)) until the first window that reaches the end (sliding-window reading of the docstring)',
                      'data compared bit for bit (float32 payload)'],
-        coverage_extra={'bounds': {'nchans': [4, 24 if thorough else 20], 'foff_mhz': FOFF, 'fch1_mhz': FCH1, 'nints': NINTS,
+        coverage_extra={'bounds': {'nchans': [4, 24 if thorough else 16], 'foff_mhz': FOFF, 'fch1_mhz': FCH1, 'nints': NINTS,
                                    'array_shapes': '1..6 x 1..6'}})
